@@ -69,6 +69,18 @@ class BufLen:
             if not (isinstance(l, ast.Call) and isinstance(l.func, ast.Name) and l.func.id == "len"):
                 l, r = r, l
                 flip = True
+            # a local that holds len(buffer) of a buffer unchanged since (`remaining = len(tail)`) is that length
+            for side in (l, r):
+                if isinstance(side, ast.Name) and side.id not in self.vars:
+                    held = [kk for kk, vv in st.items() if kk.startswith("@" + side.id + "=") and vv == 1]
+                    if len(held) == 1:
+                        lencall = ast.Call(func=ast.Name(id="len", ctx=ast.Load()), args=[ast.Name(id=held[0].split("=", 1)[1], ctx=ast.Load())], keywords=[])
+                        if side is l:
+                            l = lencall
+                        else:
+                            l, r = lencall, l
+                            flip = not flip
+                        break
             if isinstance(l, ast.Call) and isinstance(l.func, ast.Name) and l.func.id == "len" and l.args and isinstance(l.args[0], ast.Name):
                 v = l.args[0].id
                 k = self._const(r)
@@ -126,6 +138,8 @@ class BufLen:
                     if record:
                         self.sites.append(Site(n, v, f"{v}.pop({', '.join(_u(a) for a in sub.args)})", 1, out.get(v, 0)))
                     out[v] = max(0, out.get(v, 0) - 1)
+                    for kk in [kk for kk in out if kk.startswith("@") and kk.endswith("=" + v)]:
+                        out[kk] = 0
         a = n.ast
         if n.kind == "stmt":
             if isinstance(a, (ast.Assign, ast.AnnAssign)):
@@ -170,6 +184,31 @@ class BufLen:
                     for nm in ast.walk(it.optional_vars):
                         if isinstance(nm, ast.Name) and nm.id in self.vars:
                             out[nm.id] = 0
+        # length snapshots: `x = len(buf)` holds until buf or x is bound again / buf is changed in place
+        stored = set()
+        if n.kind == "stmt" and a is not None:
+            stored = {nm.id for nm in ast.walk(a) if isinstance(nm, ast.Name) and isinstance(nm.ctx, (ast.Store, ast.Del))}
+            for sub in ast.walk(a):
+                if isinstance(sub, (ast.Subscript, ast.Attribute)) and isinstance(sub.ctx, (ast.Store, ast.Del)) and isinstance(sub.value, ast.Name):
+                    stored.add(sub.value.id)
+                if isinstance(sub, ast.AugAssign) and isinstance(sub.target, ast.Name):
+                    stored.add(sub.target.id)
+                if isinstance(sub, ast.Call) and isinstance(sub.func, ast.Attribute) and isinstance(sub.func.value, ast.Name) and sub.func.value.id in self.vars \
+                        and sub.func.attr in ("pop", "append", "extend", "insert", "remove", "clear", "reverse"):
+                    stored.add(sub.func.value.id)
+        elif n.kind in ("for", "with_enter") and a is not None:
+            stored = {nm.id for nm in ast.walk(a.target if n.kind == "for" else a) if isinstance(nm, ast.Name) and isinstance(nm.ctx, ast.Store)}
+        for e in n.exprs:
+            if e is not None:
+                stored |= {sub.target.id for sub in walk_expr(e) if isinstance(sub, ast.NamedExpr) and isinstance(sub.target, ast.Name)}
+        for kk in [kk for kk in out if kk.startswith("@")]:
+            x_, b_ = kk[1:].split("=", 1)
+            if x_ in stored or b_ in stored:
+                out[kk] = 0
+        if n.kind == "stmt" and isinstance(a, ast.Assign) and len(a.targets) == 1 and isinstance(a.targets[0], ast.Name) and a.targets[0].id not in self.vars \
+                and isinstance(a.value, ast.Call) and isinstance(a.value.func, ast.Name) and a.value.func.id == "len" and len(a.value.args) == 1 \
+                and isinstance(a.value.args[0], ast.Name) and a.value.args[0].id in self.vars:
+            out["@" + a.targets[0].id + "=" + a.value.args[0].id] = 1
         # walrus definitions
         for e in n.exprs:
             if e is None:
@@ -200,7 +239,7 @@ class BufLen:
                     self.state_in[d] = dict(s2)
                     work.append(d)
                 else:
-                    new = {v: min(old.get(v, 0), s2.get(v, 0)) for v in self.vars}
+                    new = {v: min(old.get(v, 0), s2.get(v, 0)) for v in set(self.vars) | set(old) | set(s2)}
                     if new != old:
                         self.state_in[d] = new
                         work.append(d)
